@@ -79,13 +79,18 @@ func (c *RunCtx) Add(r *ExploreResult) {
 	}
 	sort.Strings(keys)
 	for _, k := range keys {
-		c.out.Violations = append(c.out.Violations, *r.Violations[k])
+		v := *r.Violations[k]
+		v.Shard, v.NShards = c.Shard, c.NShards
+		c.out.Violations = append(c.out.Violations, v)
 	}
 }
 
-func (c *RunCtx) AddStats(s Stats)         { c.out.Stats = append(c.out.Stats, s) }
-func (c *RunCtx) AddViolation(v Violation) { c.out.Violations = append(c.out.Violations, v) }
-func (c *RunCtx) Assume(s ...string)       { c.out.Assumptions = append(c.out.Assumptions, s...) }
+func (c *RunCtx) AddStats(s Stats) { c.out.Stats = append(c.out.Stats, s) }
+func (c *RunCtx) AddViolation(v Violation) {
+	v.Shard, v.NShards = c.Shard, c.NShards
+	c.out.Violations = append(c.out.Violations, v)
+}
+func (c *RunCtx) Assume(s ...string) { c.out.Assumptions = append(c.out.Assumptions, s...) }
 func (c *RunCtx) Extra(k string, v interface{}) {
 	if c.out.Extra == nil {
 		c.out.Extra = map[string]interface{}{}
